@@ -274,7 +274,7 @@ static void run_history() {
 extern "C" void h_termnames_history() {
     run_history();
     VWITNESS("history-done");
-    if (popped_a_name && M.n == 1) { VWITNESS("a-name-was-popped-another-survives"); }
+    if (popped_a_name) { VWITNESS("a-name-was-popped"); }
     if (shrunk_a_name) { VWITNESS("a-name-was-rolled-back"); }
     if (reinserted) { VWITNESS("a-popped-term-was-named-again"); }
     if (global_mode && M.n == 2 && M.depth == 0) { VWITNESS("global-mode-names-survive-pop"); }
@@ -282,6 +282,19 @@ extern "C" void h_termnames_history() {
 }
 #else
 // ---------------------------------------------------------------- C06: UnsatCoreBuilder::partitionNamedTerms on top of it
+// opensmt::vec<PTRef>: growth (capacity) hands out one of four static 4-element buffers; free() is a no-op
+static PTRef vec_bufs[4][4]; static int n_vec_bufs;
+extern "C" void stub_vec_capacity(vec<PTRef> * v, int min_cap) {
+    if (v->cap >= min_cap) return;
+    VASSERT(min_cap <= 4, "bound: at most 4 terms in a vec<PTRef>");
+    if (v->data == nullptr) {
+        VASSERT(n_vec_bufs < 4, "bound: at most 4 vec<PTRef> buffers");
+        int k = n_vec_bufs++;
+        v->data = k == 0 ? vec_bufs[0] : k == 1 ? vec_bufs[1] : k == 2 ? vec_bufs[2] : vec_bufs[3];
+    }
+    v->cap = 4;
+}
+extern "C" void stub_free(void *) {}
 static bool minimal_cores;
 extern "C" bool stub_minimal_cores(SMTConfig const *) { return minimal_cores; }
 extern "C" TermNames const & stub_get_term_names(MainSolver const *) { return raw.tn; }
